@@ -159,7 +159,7 @@ cdef Split compute_all_splits(Split best_split,
         # sigma(Sl\times N) + sigma(Sr\times N) = sigma(N^2)
         # sigma(Sl, sl) + sigma(sr,sr) - 2sigma(N^2) = 2* leftover
         sl_sr = (leaf_square - sl_square - sr_square) / 2
-        split_star -= (sl_square + sl_sr) / delta_size
+        split_star -= 2 * (sl_square + sl_sr) / delta_size
 
         double_star_gain = split_star + leaf_star
         if double_star_gain > best_split.gain:
